@@ -9,22 +9,26 @@
 (* the module a bare name is used from).  A memo layer is characterised by *)
 (*   KeyIgnoresDetail  the key is eq although the result depends on d      *)
 (*   SharesResult      a hit returns the stored mutable object itself      *)
+(* and a routine by                                                         *)
+(*   ReturnsInput      an identity fast path hands the caller's own object  *)
+(*                     back as the result ("already an instance")           *)
 (* Reference: every call's outcome is that of the same call in a cold      *)
 (* process: computed from its own [eq, d], untouched by earlier mutation.  *)
 (***************************************************************************)
 EXTENDS Naturals, Sequences, FiniteSets, TLC, Json
 
-CONSTANTS MaxOps, KeyIgnoresDetail, SharesResult, Emit
+CONSTANTS MaxOps, KeyIgnoresDetail, SharesResult, ReturnsInput, Emit
 
 Objects == [eq : {1, 2}, d : {1, 2}]
 KeyOf(o) == IF KeyIgnoresDetail THEN <<o.eq, 0>> ELSE <<o.eq, o.d>>
 
 VARIABLES memo,       \* key |-> detail of the argument the entry was computed from
           dirty,      \* keys whose stored result object has been mutated by a caller
-          hist        \* sequence of operations with their outcomes
-vars == <<memo, dirty, hist>>
+          hist,       \* sequence of operations with their outcomes
+          moved       \* calls whose returned result changed when the caller changed the input it had passed
+vars == <<memo, dirty, hist, moved>>
 
-Init == memo = <<>> /\ dirty = {} /\ hist = <<>>
+Init == memo = <<>> /\ dirty = {} /\ hist = <<>> /\ moved = {}
 
 Call(o) ==
   /\ Len(hist) < MaxOps
@@ -34,23 +38,27 @@ Call(o) ==
          soiled == hit /\ k \in dirty IN
      /\ hist' = Append(hist, [op |-> "call", eq |-> o.eq, d |-> o.d, from |-> from, soiled |-> soiled, target |-> 0])
      /\ memo' = IF hit THEN memo ELSE [x \in DOMAIN memo \cup {k} |-> IF x = k THEN o.d ELSE memo[x]]
-     /\ dirty' = dirty
+     /\ dirty' = dirty /\ moved' = moved
 
-Mutate(i) ==     \* the caller deep-mutates the result of the i-th operation (a call)
+\* the caller deep-mutates what belongs to the i-th operation (a call): first the input it had passed, then the result
+Mutate(i) ==
   /\ Len(hist) < MaxOps
   /\ i \in 1..Len(hist) /\ hist[i].op = "call"
   /\ hist' = Append(hist, [op |-> "mutate", eq |-> hist[i].eq, d |-> hist[i].d, from |-> 0, soiled |-> FALSE, target |-> i])
   /\ dirty' = IF SharesResult THEN dirty \cup {KeyOf([eq |-> hist[i].eq, d |-> hist[i].d])} ELSE dirty
   /\ memo' = memo
+  /\ moved' = IF ReturnsInput THEN moved \cup {i} ELSE moved      \* the result was the input: it moved with it
 
 Clear ==
   /\ Len(hist) < MaxOps /\ Len(hist) > 0
   /\ hist' = Append(hist, [op |-> "clear", eq |-> 0, d |-> 0, from |-> 0, soiled |-> FALSE, target |-> 0])
-  /\ memo' = <<>> /\ dirty' = {}
+  /\ memo' = <<>> /\ dirty' = {} /\ moved' = moved
 
 Next == (\E o \in Objects : Call(o)) \/ (\E i \in 1..MaxOps : Mutate(i)) \/ Clear
 Spec == Init /\ [][Next]_vars
 
 HistoryFree == \A i \in 1..Len(hist) : hist[i].op = "call" => (hist[i].from = hist[i].d /\ ~hist[i].soiled)
+\* what a call returned is the caller's: changing the input afterwards does not reach it
+ResultsIndependentOfInputs == moved = {}
 EmitHist == (Emit /\ Len(hist) = MaxOps) => PrintT(ToJson([hist |-> hist]))
 =============================================================================
